@@ -44,7 +44,7 @@ func (g *vfGen) genResExt() {
 		if len(c) > 4096 {
 			c = c[:4096]
 		}
-		g.emit(vfOp("resext", c, []uint32{0, 3072}[g.rng.Intn(2)]))
+		g.emit(vfOp("resext", c, []uint32{0, 3072}[g.intn(2)]))
 	}
 	for _, s := range []string{"%PDF-1.7", "plain text", "{\"a\":1}", "<html><body>", "PK\x03\x04", "", "\x00\x01"} {
 		g.emit(vfOp("resext", []byte(s), 0))
